@@ -67,6 +67,8 @@ def gen_cases(ctx, n_per_kind):
                        RC.gauss_psf(12, float(rng.uniform(1.1, 1.6)))][(i + i // 5) % 4]
                 nr = (0.8, 6.0)
                 c0 = None
+            if i % 3 == 1 and kind != "pixel" and np.asarray(psf).shape[0] % 2 == 0:
+                psf = RC.gauss_psf(11, float(rng.uniform(1.1, 1.6)))      # the edge-ellipticity cases use an odd stamp (no clamp below)
             sc = RC.gen_scene(rng, kind, N, psf, types=[t], mode="single", suffix="", pos_styles=("frac",), n_range=nr)
             p = sc["params"]
             for k in p:
@@ -217,7 +219,10 @@ def oracle_child(payload):
                 fails.append(("angle", f"position angle {a['pa']:.4f} vs reference {b['pa']:.4f} (theta = {P['theta'] % np.pi:.4f})"))
             dq = abs(a["q"] / b["q"] - 1)
             if not dq <= 0.05:
-                fails.append(("axis-ratio", f"axis ratio {a['q']:.4f} vs reference {b['q']:.4f}"))
+                emax = max(v for k, v in P.items() if k.startswith("ellip"))
+                # the flattest profiles at the highest indices: recorded finding (the mixture of round-ish inner Gaussians cannot be as flat)
+                cl = "axis-ratio-flattest-high-n" if (not pix and max(ns) >= 3.5 and emax >= 0.75) else "axis-ratio"
+                fails.append((cl, f"axis ratio {a['q']:.4f} vs reference {b['q']:.4f} (n = {[round(x, 2) for x in ns]}, largest ellip {emax:.2f}, r_eff = {rr:.2f})"))
             ds = abs(a["size2"] / b["size2"] - 1)
             tol_s = 0.015 if pix else 0.08
             if (not pix or max(ns) <= 2.5) and not ds <= tol_s:
